@@ -548,6 +548,10 @@ impl Scenario for C19 {
             spec.variant = "static".into();
             return spec;
         }
+        if rng.chance(1, 40) {
+            // re-entrancy: one JitterRng advanced from inside the timer callback of another one
+            return super::c12::gen_nested_spec(rng, "C19", "nested");
+        }
         spec.variant = "schedule".into();
         let n = rng.range(2, 6) as usize;
         // same-type, same-seed instances are likely to collide in a shared cache: bias towards them
@@ -645,6 +649,35 @@ impl Scenario for C19 {
                 if !send || !sync {
                     return viol("C19/not_send_sync", format!("{}:auto_traits", name), format!("{}: Send = {}, Sync = {}", name, send, sync));
                 }
+            }
+            return RunEnd::Ok;
+        }
+        if spec.variant == "nested" {
+            // the same operations of the same generator, once on their own and once each from inside a
+            // timer reading of another JitterRng's collection on the same thread
+            let alone = match super::c12::run_nested(spec, false) {
+                Ok(v) => v,
+                Err(e) => return e,
+            };
+            let nested = match super::c12::run_nested(spec, true) {
+                Ok(v) => v,
+                Err(e) => return e,
+            };
+            st.count("probe:nested_in_timer_callback");
+            st.sig(&[8, spec.aux[1], spec.aux[2], spec.ops.len() as u64]);
+            for (o, _) in &alone {
+                super::c05::log_out(st, o);
+            }
+            if alone != nested {
+                let i = alone.iter().zip(nested.iter()).position(|(a, b)| a != b).unwrap_or(alone.len().min(nested.len()));
+                return viol(
+                    "C19/depends_on_other_instances",
+                    "JitterRng:nested",
+                    format!(
+                        "JitterRng advanced from inside the timer callback of another JitterRng (same thread, outer reading index % {} == {}): operation #{} gives {:?} (output, readings so far), alone it gives {:?}",
+                        spec.aux[1], spec.aux[2], i, nested.get(i), alone.get(i)
+                    ),
+                );
             }
             return RunEnd::Ok;
         }
